@@ -80,6 +80,18 @@ func genC03(t *rapid.T) Case {
 		at := rapid.IntRange(0, len(c.Ops)).Draw(t, "scAt")
 		c.Ops = append(c.Ops[:at:at], append(sc, c.Ops[at:]...)...)
 	}
+	// two or three transactions in a row that each write 6-12 distinct keys (more than the handful of the key
+	// pool): every key of every commit has to be there afterwards
+	if rapid.IntRange(0, 3).Draw(t, "wideTxs") == 0 {
+		var frag []Op
+		for n := rapid.IntRange(2, 3).Draw(t, "nWide"); n > 0; n-- {
+			frag = append(frag, Op{K: "begin", Lvl: rapid.IntRange(0, 3).Draw(t, "wideLvl")},
+				Op{K: "txburst", Last: true, N: rapid.IntRange(6, 12).Draw(t, "wideN")},
+				Op{K: rapid.SampledFrom([]string{"commit", "commit", "commit", "rollback"}).Draw(t, "wideEnd"), Last: true})
+		}
+		at := rapid.IntRange(0, len(c.Ops)).Draw(t, "wideAt")
+		c.Ops = append(c.Ops[:at:at], append(frag, c.Ops[at:]...)...)
+	}
 	return c
 }
 
